@@ -125,7 +125,12 @@ func HarnessReader() {
 	defer closer()
 	payload := verif.Bytes("payload", verif.Bound("L", 2))
 	var src io.Reader = bytes.NewReader(payload)
-	switch verif.Choice("reader_kind", 3) {
+	switch verif.Choice("reader_kind", 4) {
+	case 3: // a seekable reader the caller has already read a header from: only the rest is the stream
+		br := bytes.NewReader(append([]byte{verif.Byte("hdr")}, payload...))
+		var one [1]byte
+		br.Read(one[:])
+		src = br
 	case 1: // the last bytes arrive together with EOF
 		src = &dataEOFReader{b: append([]byte(nil), payload...)}
 	case 2: // one byte per Read, the last one together with EOF
